@@ -236,16 +236,30 @@ theorem linear_axis_blocks_coordinates (a s : Rat) (cs : List Nat) :
   unfold linearCoordinates
   rw [show a + s * (cs.sum : Rat) = a + (cs.sum : Rat) * s by ring, linspace_open_of_step]
 
-/-- Known finding `grid-single-point-endpoint-scan-cannot-be-partitioned`: the blocks do **not** always have positive
-extent.  `Grid` reports sampling 0 for `endpoint=True` with a single grid point (C17, F8); then every block has
-`end = start`, and `GridScan.__init__` rejects a scan whose extent is ≤ 0 along both axes — so
-`GridScan(gpts=(1, 1), endpoint=True)` cannot be partitioned at all (lazy and eager alike), although its single
-position re-assembles in the model (`grid_blocks_positions`). -/
-theorem grid_blocks_positive_extent_counterexample :
-    ¬ ∀ (a s : Rat) (cs : List Nat), ∀ b ∈ gridAxisBlocks a s cs, b.start < b.stop := by
+/-! ### zero-size chunks: legal for `validate_chunks` (C18), re-assemble in the model, but two partitioners cannot
+build the empty block (GridScan can since /repo e1c94437 + 75e9df16) -/
+
+/-- in the model an empty block contributes nothing and the members still re-assemble -/
+theorem zero_size_chunk_reassembles (xs : List α) (cs ds : List Nat) (h : (cs ++ 0 :: ds).sum = xs.length) :
+    (sliceBlocks xs (cs ++ 0 :: ds)).flatten = xs := (members_reassemble xs _ h).1
+
+/-- Known finding `custom-zero-size-chunk-block-is-unscanned-sentinel`: a block `CustomScan` built from an empty slice of
+positions has ensemble shape `()` (the "no scan" sentinel, one implicit member) instead of `(0,)`. -/
+theorem custom_zero_chunk_block_shape_counterexample :
+    ¬ ∀ (xs : List Nat) (cs : List Nat), ∀ b ∈ sliceBlocks xs cs, customScanShape b = [b.length] := by
   intro h
-  have := h 0 0 [1] ⟨0, 0, 1⟩ (by decide +kernel)
-  exact absurd this (by decide +kernel)
+  have := h [7, 8] [1, 0, 1] [] (by decide)
+  revert this
+  decide
+
+/-- Known finding `atoms_ensemble-zero-size-chunk-index-error`: a block `AtomsEnsemble` over an empty slice of the
+trajectory has no first configuration (`.atoms` raises IndexError). -/
+theorem atoms_ensemble_zero_chunk_no_first_config_counterexample :
+    ¬ ∀ (xs : List Nat) (cs : List Nat), ∀ b ∈ rangeBlocks xs cs, (firstConfig b).isSome = true := by
+  intro h
+  have := h [7, 8] [1, 0, 1] [] (by decide)
+  revert this
+  decide
 
 /-! ### WavesBuilder chunk splits -/
 
